@@ -1,15 +1,83 @@
 /-
-  C04 — property theorems (see design-notes/C04.md). Placeholder while the proofs are built.
+  C04 — property theorems. See design-notes/C04.md for what is proved and what is only checked
+  differentially.
+
+  Shape: for every rule group (one file of graphql/validator each) a theorem
+  `model_<group>_eq_spec` saying that the model of that file reports a (primary) error exactly
+  when one of the specification's rules of that group is violated — for all schemas and all
+  documents, given (where the pass depends on scopes) the rules that establish scopes. This pair
+  of directions is the group's soundness and completeness.
 -/
-import ApiFu.C04.Spec
-import ApiFu.C04.Model
+import ApiFu.C04.Lemmas
 
 namespace ApiFu.C04
+open Spec Model
+set_option linter.unusedSimpArgs false
 
 /-- The specification's verdict is a function of schema and document (trivial in Lean: `Spec.valid`
-    is a total function; the content of "the verdict does not vary between runs" is the tie). -/
+    is a total function; the content of "the verdict does not vary between runs" is the tie: five
+    runs per case, two of them on a schema rebuilt in shuffled definition order). -/
 theorem spec_deterministic (S : Schema) (D : Document) (a b : Bool)
     (ha : a = Spec.valid S D) (hb : b = Spec.valid S D) : a = b := by
   rw [ha, hb]
+
+/-- **Directives group** (validate_directives.go = §5.7.1–§5.7.3), all documents, no hypothesis:
+    the model's directive pass reports no error iff the three directive rules of the specification
+    hold. (Every error of this pass is primary.) -/
+theorem model_directives_eq_spec (S : Schema) (D : Document) :
+    Model.validateDirectives S D = [] ↔
+      (Spec.directivesDefined S D = true ∧ Spec.directivesInLocation S D = true ∧
+        Spec.directivesUnique S D = true) := by
+  rw [validateDirectives_nil_iff]
+  simp only [checkDirectives_nil, dirListOk, Spec.directivesDefined, Spec.directivesInLocation,
+    Spec.directivesUnique, List.all_eq_true]
+  constructor
+  · intro h
+    refine ⟨fun site hs => (h site hs).1, fun site hs => (h site hs).2.1, fun site hs => (h site hs).2.2⟩
+  · rintro ⟨h1, h2, h3⟩ site hs
+    exact ⟨h1 site hs, h2 site hs, h3 site hs⟩
+
+/-- **Fields group, first pass** (validate_fields.go:21-92 = §5.3.1 + §5.3.3): given the rules
+    that establish scopes (operation types supported, type conditions exist and are composite), the
+    model reports a primary error iff a field is undefined on its parent type or the leaf/composite
+    rule is violated. -/
+theorem model_fields_eq_spec {S : Schema} {D : Document} (h : ScopeRules S D) :
+    primaryFree (Model.validateFields1 S D) = (Spec.fieldsDefined S D && Spec.leafSelections S D) := by
+  unfold Model.validateFields1 Spec.fieldsDefined Spec.leafSelections
+  rw [primaryFree_flatMap, all_and]
+  unfold Spec.selOccs
+  rw [all_flatMap]
+  apply all_congr_mem
+  intro d hd
+  obtain ⟨e, hinv, hcond⟩ := def_scope h hd
+  rw [occDef_eq] at hcond ⊢
+  rw [e]
+  exact fields1_set_ok h.wf _ _ hinv hcond
+
+/-- **Arguments group** (validate_arguments.go = §5.4.1, §5.4.2, §5.4.2.1), all well-scoped
+    documents: the model reports a primary error iff an argument is unknown, repeated, or a required
+    argument is missing — on fields and on directives, at any depth. (Without the fix of F-04b this
+    statement is false: `{ o { g } }`.) -/
+theorem model_arguments_eq_spec {S : Schema} {D : Document} (h : WellScoped S D) :
+    primaryFree (Model.validateArguments S D) =
+      (Spec.argumentsKnown S D && Spec.argumentsUnique S D && Spec.argumentsRequired S D) := by
+  unfold Spec.argumentsKnown Spec.argumentsUnique Spec.argumentsRequired
+  rw [all_and3]
+  change _ = (Spec.argSites S D).all siteOk
+  unfold Model.validateArguments Spec.argSites Spec.selOccs
+  rw [primaryFree_flatMap, List.all_append, all_flatMap, all_flatMap, all_flatMap, all_and]
+  apply all_congr_mem
+  intro d hd
+  obtain ⟨e, hocc⟩ := def_occs h hd
+  rw [primaryFree_append, argsDirectives_ok, Bool.and_comm]
+  congr 1
+  have hinfo : (moccSet S (Model.defScope S d) (Model.defSel d)).all (hasInfoAt S) = true := by
+    rw [e, List.all_eq_true]
+    intro o ho
+    exact info_of_scoped h.wf (hocc o ho).1 (hocc o ho).2
+  rw [args_set_flat S _ _ hinfo, e, primaryFree_flatMap]
+  apply all_congr_mem
+  intro o ho
+  exact argsOcc_ok h.wf (hocc o ho).1 (hocc o ho).2
 
 end ApiFu.C04
